@@ -208,4 +208,18 @@ def matchStereo (autoFilter : Bool) : List (Option Dict × List Dict) → Option
         let more ← autos.mapM (composeDict fm)
         pure (fm :: more ++ tl)
 
+
+/-- executable test (applied to the REAL output of `get_fast_mapping`): the dict maps the whole pattern one-to-one ONTO the whole
+target, atoms match, and two pattern atoms are bonded iff their images are, with matching bonds.  `getD 0` is never reached: the
+first conjunct demands an image for every pattern atom. -/
+def isoCheck (p : Problem) (d : Dict) : Bool :=
+  let f := fun u => (d.lookup u).getD 0
+  p.q.atoms.all (fun u => (d.lookup u).isSome) &&
+  (p.q.atoms.map f).Nodup &&
+  p.q.atoms.all (fun u => p.t.atoms.contains (f u)) &&
+  p.t.atoms.all (fun x => p.q.atoms.any fun u => f u == x) &&
+  p.q.atoms.all (fun u => p.atomOk u (f u)) &&
+  p.q.atoms.all (fun u => p.q.atoms.all fun v =>
+    (p.q.hasBond u v == p.t.hasBond (f u) (f v)) && (!p.q.hasBond u v || p.bondOk u v (f u) (f v)))
+
 end ChythonModel.Model.Iso
